@@ -64,6 +64,8 @@ func c03ValStmts() []c03ValStmt {
 		{`== .name[-2:-1] "x"`, policy.Equal(".name[-2:-1]", literal.String("x")), func(s string, _ cid.Cid, _ bool) bool { return runeSlice(s, -2, -1) == "x" }},
 		// indexes written with leading zeros are decimal (xs = [0, 1, ..., 11]: xs[010] is 10, not 8; xs[-012] is xs[0])
 		{`not(== .xs[010] 10)`, policy.Not(policy.Equal(".xs[010]", literal.Int(10))), func(string, cid.Cid, bool) bool { return false }},
+		{`== .xs[010] 10`, policy.Equal(".xs[010]", literal.Int(10)), func(string, cid.Cid, bool) bool { return true }},
+		{`== .xs[-011] 1`, policy.Equal(".xs[-011]", literal.Int(1)), func(string, cid.Cid, bool) bool { return true }},
 		{`== .xs[010] 8`, policy.Equal(".xs[010]", literal.Int(8)), func(string, cid.Cid, bool) bool { return false }},
 		{`not(== .xs[-012] 0)`, policy.Not(policy.Equal(".xs[-012]", literal.Int(0))), func(string, cid.Cid, bool) bool { return false }},
 		{`== .xs[007:011] [7]`, policy.Equal(".xs[007:011]", nList(nInt(7))), func(string, cid.Cid, bool) bool { return false }},
